@@ -66,6 +66,7 @@ extern "C" void vfh_C07_unload(void)
 	u->CurrentSelectedOutputUserNumber = 5;
 	u->SelectedOutputFileOnMap[5] = true; u->SelectedOutputFileOnMap[1] = true;
 	u->SelectedOutputStringOn[5] = true; u->SelectedOutputStringOn[1] = true;
+	u->SelectedOutputFileNameMap[5] = "/nonexistent_dir/x.sel"; u->SelectedOutputFileNameMap[1] = "from_input.sel";      /* names taken from -file options of the input */
 	u->SelectedOutputMap[5] = new CSelectedOutput();
 	u->SelectedOutputStringMap[5] = "row\n";
 	u->SelectedOutputLinesMap[5].push_back("row");
@@ -94,6 +95,7 @@ extern "C" void vfh_C07_unload(void)
 	vf_check("sel.count", u->GetSelectedOutputCount() == f->GetSelectedOutputCount());
 	vf_check("sel.file_on", u->GetSelectedOutputFileOn() == f->GetSelectedOutputFileOn() && u->SelectedOutputFileOnMap.size() == f->SelectedOutputFileOnMap.size());
 	vf_check("sel.string_on", u->GetSelectedOutputStringOn() == f->GetSelectedOutputStringOn() && u->SelectedOutputStringOn.size() == f->SelectedOutputStringOn.size());
+	vf_check("sel.file_names", u->SelectedOutputFileNameMap.size() == f->SelectedOutputFileNameMap.size() && u->sel_file_name(1) == u->GetSelectedOutputFileName() && f->sel_file_name(1) == f->GetSelectedOutputFileName());     /* the default name of a fresh instance (it contains the id) */
 	vf_check("sel.string", u->SelectedOutputStringMap.size() == 0 && !strcmp(u->GetSelectedOutputString(), f->GetSelectedOutputString()));
 	vf_check("sel.lines", u->SelectedOutputLinesMap.size() == 0 && u->GetSelectedOutputStringLineCount() == f->GetSelectedOutputStringLineCount());
 	vf_check("sel.rows", u->GetSelectedOutputRowCount() == f->GetSelectedOutputRowCount() && u->GetSelectedOutputColumnCount() == f->GetSelectedOutputColumnCount());
